@@ -427,8 +427,8 @@ fn group_ops(src: &mut Src, g: usize, cols: u32, lines: u32, p: &Profile, out: &
                 // deep stacks: a burst of saves (around powers of two)
                 // the very deep stacks only in the long-history sub-checks (snapshots of the
                 // whole stack at every step make them expensive)
-                let k = if p.max_ops >= 100 {
-                    *src.pick(&[2u32, 3, 7, 8, 9, 15, 16, 17, 31, 32, 33, 64, 65, 128, 255, 256, 257, 1023, 1024, 1025])
+                let k = if p.max_ops >= 100 && src.chance(40) {
+                    *src.pick(&[128u32, 255, 256, 257, 1023, 1024, 1025])
                 } else {
                     *src.pick(&[2u32, 3, 7, 8, 9, 15, 16, 17, 31, 32, 33, 64, 65])
                 };
